@@ -505,6 +505,9 @@ func valueFor(name, vt, cls string, wild bool) interface{} {
 		}
 		return fill(minimalDoc(kk, ""), kk)
 	case "map":
+		if cls == "mapEmptyKey" {
+			return obj{"": fill(minimalDoc(kk, ""), kk)}
+		}
 		m := obj{mapKey(1, kk): fill(minimalDoc(kk, ""), kk)}
 		if cls == "map2" {
 			m[mapKey(2, kk)] = fill(minimalDoc(kk, ""), kk)
